@@ -1427,6 +1427,74 @@ func (g *gen) actCycleLastRef() bool {
 	return true
 }
 
+// actFreshThenConsume builds a nested compound nobody else refers to (structs inside arrays/maps inside structs) and
+// lets one instruction consume its only reference: the "not referenced" branches of the VM's counting code.
+func (g *gen) actFreshThenConsume() bool {
+	levels := g.intn(1, 3, "lvls")
+	g.pushPrim()
+	for l := 0; l < levels && !g.stopped(); l++ {
+		extra := g.intn(0, 2, "extra")
+		for j := 0; j < extra; j++ {
+			g.pushPrim()
+		}
+		switch g.intn(0, 3, "wrap") {
+		case 0, 1:
+			g.pushInt(int64(extra + 1))
+			g.op(opcode.PACKSTRUCT)
+		case 2:
+			g.pushInt(int64(extra + 1))
+			g.op(opcode.PACK)
+		default:
+			for j := 0; j < extra; j++ {
+				g.op(opcode.DROP)
+			}
+			g.pushKey()
+			g.pushInt(1)
+			g.op(opcode.PACKMAP)
+		}
+	}
+	if g.stopped() || len(g.m.st) == 0 || !g.m.peek(0).k.compound() {
+		return true
+	}
+	top := g.m.peek(0)
+	switch g.intn(0, 7, "consume") {
+	case 0, 1:
+		g.op(opcode.VALUES)
+	case 2:
+		g.op(opcode.UNPACK)
+	case 3:
+		g.op(opcode.CLEARITEMS)
+	case 4:
+		if top.k != kMap && len(top.c.items) > 0 {
+			g.op(opcode.POPITEM)
+		} else {
+			g.op(opcode.KEYS)
+		}
+	case 5:
+		// put it (a struct is cloned) into a fresh or existing container
+		if r, ok := g.pickRef(isArrLike, "into"); ok {
+			g.fetch(r)
+			g.op(opcode.SWAP)
+			g.op(opcode.APPEND)
+		} else {
+			g.op(opcode.NEWARRAY0)
+			g.op(opcode.SWAP)
+			g.op(opcode.APPEND)
+		}
+	case 6:
+		if top.k != kMap {
+			g.op(opcode.CONVERT, map[kind]byte{kArr: 0x41, kStruct: 0x40}[top.k])
+		} else {
+			g.op(opcode.DROP)
+		}
+	default:
+		if !g.actStore() {
+			g.op(opcode.DROP)
+		}
+	}
+	return true
+}
+
 type action struct {
 	w int
 	f func(*gen) bool
@@ -1464,6 +1532,7 @@ func init() {
 		{3, (*gen).actIf},
 		{2, (*gen).actLoop},
 		{1, (*gen).actCycleLastRef},
+		{3, (*gen).actFreshThenConsume},
 	}
 	for _, a := range actions {
 		actionTotal += a.w
